@@ -17,7 +17,7 @@ import hashlib
 import heapq
 import tracemalloc
 
-from sim import lib, gen, wiremap
+from sim import lib, gen, wiremap, core
 from sim.meter import METER
 from sim.values import canon_frame, canon_exc, frame_kind
 
@@ -207,7 +207,8 @@ class RunA:
             # only C08 judges work; the others just need every call to end
             budget = STEP_CAP_OTHER
         sample_mem = 'C08' in self.props and (
-            (self.n_calls & 7) == 0 or self.trace.get('mem_all'))
+            (self.n_calls & 7) == 0 or self.trace.get('mem_all')) and \
+            not self.trace.get('no_mem_sample') and not self.threaded
         if sample_mem:
             tracemalloc.start()
         if self.threaded:
@@ -234,6 +235,14 @@ class RunA:
             ratio = steps / len(buf)
             if ratio > self.max_step_ratio and len(buf) >= 64:
                 self.max_step_ratio = ratio
+        if status == 'budget' and METER.where == 'deadlock':
+            self.ev('um', why, len(buf), 'DEADLOCK')
+            self.probe('library_lock_deadlock')
+            self.oracle('C08.steps')
+            self.fail('C08', 'steps', ['deadlock'],
+                      'decode of %d bytes blocked for ever on a library lock '
+                      'that nobody can release: %s' % (len(buf), val), buf)
+            return 'budget', None
         if status == 'budget':
             self.ev('um', why, len(buf), 'BUDGET', METER.where)
             self.probe('step_budget_exceeded')
@@ -433,7 +442,7 @@ class RunA:
                           'on which frames were decoded before it' % (
                               fi.kind, fi.idx), fi.data)
 
-    def build_conn(self, ci, ct):
+    def build_conn(self, ci, ct, want_ref=True):
         c = Conn()
         c.idx = ci
         c.recv = ct.get('recv', 'A')
@@ -481,7 +490,8 @@ class RunA:
             pos += len(data)
             fi.end = pos
             fi.ref = None
-            if not fi.damaged and fi.kind != 'raw' and 'C06' in self.props:
+            if not fi.damaged and fi.kind != 'raw' and want_ref and \
+                    'C06' in self.props:
                 # only C06 compares decoded values; the other checks must
                 # not have every frame decoded an extra time beforehand
                 # (it perturbs the very history they examine)
@@ -872,9 +882,19 @@ class RunA:
 
     # ------------------------------------------------------------- the run
     def point(self, code, line):
-        # sys.monitoring LINE callback (installed by sim.world_b.install)
+        # sys.monitoring LINE callback (installed by sim.world_b.install).
+        # Runs inside library frames: a mistake of the harness here must
+        # never look like an exception raised by the library.
         if self.baton is not None:
-            self.baton.point(code, line)
+            try:
+                self.baton.point(code, line)
+            except Exception as e:
+                import traceback
+                self.harness_failure = '%r\n%s' % (
+                    e, traceback.format_exc()[-1500:])
+                self.baton.abort = True
+                from sim import sched
+                raise sched.AbortRun()
 
     def execute_threaded(self):
         """Every connection (producer: encode its frames; then its receiver)
@@ -885,18 +905,63 @@ class RunA:
         METER.install()
         cts = self.trace['conns']
         n = len(cts)
-        self.baton = sched.Baton(n, self.trace, self.ev)
         conns = [None] * n
+        prebuilt = bool(self.trace.get('prebuilt'))
+        watch = None
+        ls = self.trace.get('lockstep')
+        if prebuilt:
+            # capacity population: the streams are encoded here, before any
+            # thread exists; the threads only decode.  For C06 the reference
+            # values come from a helper forked before this process made its
+            # first library call (decoding in reverse order).
+            helper = PristineRefs() if 'C06' in self.props else None
+            try:
+                for ci, ct in enumerate(cts):
+                    conns[ci] = self.build_conn(ci, ct, want_ref=False)
+                if helper is not None:
+                    frames = [fi for c in conns for fi in c.frames
+                              if not fi.damaged and fi.kind != 'raw'
+                              and fi.data]
+                    refs = helper.ask([fi.data for fi in frames])
+                    helper = None
+                    for fi, pr in zip(frames, refs):
+                        fi.ref = pr
+            finally:
+                if helper is not None:
+                    helper.drop()
+        if ls is not None:
+            from sim import watch as watch_mod
+            watch = watch_mod.Watch(margin=ls.get('margin', 4))
+        self.baton = sched.Baton(n, self.trace, self.ev)
+        ls_budget = [ls.get('max_ops', 400) if ls else 0]
 
         def body(tid):
-            c = self.build_conn(tid, cts[tid])
-            conns[tid] = c
+            if prebuilt:
+                c = conns[tid]
+            else:
+                c = self.build_conn(tid, cts[tid])
+                conns[tid] = c
             self.ev('conn', tid, c.recv, len(c.frames), len(c.stream))
             guard = 0
             while not c.done:
                 guard += 1
                 if guard > 2000000:
                     raise RuntimeError('harness: connection never finished')
+                if guard % 200 == 0:
+                    core.heartbeat()
+                if watch is not None:
+                    # state-aware fault placement: go lock-step while some
+                    # library container is about to reach a round capacity
+                    if guard % 97 == 0:
+                        watch.scan()
+                    hit = watch.near_boundary() if ls_budget[0] > 0 else None
+                    if hit is not None:
+                        ls_budget[0] -= 1
+                        if not self.baton.lock_on:
+                            self.probe('lockstep_windows')
+                            self.ev('lockstep-on', tid, hit)
+                        self.count(self.fired, 'lockstep_op_near_capacity')
+                    self.baton.lock_on = hit is not None
                 if not self.step_conn(c, 0):
                     break
 
@@ -920,12 +985,36 @@ class RunA:
             lib.LOCK_YIELD[0] = None
             METER.active = False
         self.n_steps = METER.count
+        if getattr(self, 'harness_failure', None):
+            raise RuntimeError('harness: scheduler callback failed: ' +
+                               self.harness_failure)
         for name, rep, tb in self.baton.errors:
             if name == 'StepBudgetExceeded':
                 self.probe('run_aborted_by_step_budget')
+            elif name == 'Deadlock':
+                self.probe('library_lock_deadlock')
+                if self.violation is None and 'C08' in self.props:
+                    try:
+                        self.fail('C08', 'steps', ['deadlock'],
+                                  'a decode blocked for ever on a library '
+                                  'lock that nobody can release: ' + rep)
+                    except Violation:
+                        pass
             else:
                 raise RuntimeError('harness: thread error %s\n%s' % (rep,
                                                                      tb))
+        if watch is not None:
+            self.watch_summary = watch.summary()
+            self.ev('watch', self.watch_summary)
+            if self.baton.ls_switches:
+                self.count(self.fired, 'lockstep_switch',
+                           self.baton.ls_switches)
+            if self.violation is None and self.trace.get('tail') and \
+                    'C08' in self.props:
+                try:
+                    self.soak_tail(watch, self.trace['tail'])
+                except Violation:
+                    pass
         self.count(self.fired, 'preempt_inside_call',
                    sum(1 for s_ in self.baton.switch_sigs
                        if s_[2][0] != 'op-boundary'))
@@ -949,12 +1038,464 @@ class RunA:
             'log': self.log,
         }
 
-    def execute(self):
-        from sim import core
+    # ------------------------------------------- capacity: fork-and-explore
+    def execute_capacity(self):
+        """Long histories of distinct frames on 2-3 connections, executed
+        operation by operation in ONE thread (connections alternate).  When
+        the state watch sees a library container within a few entries of a
+        capacity of interest, the round about to be executed is explored
+        systematically in forked children: every child turns the connections
+        into real threads for a window of w operations each and parks one
+        thread just before the k-th line it executes inside a function that
+        touches the library's containers, lets the other threads run their
+        window, then resumes it - for every thread and every k.  A child
+        whose container state after the window is not the state of any
+        sequential order goes on to the end of the run (consequences of a
+        race often show a thousand operations later).  The parent never
+        runs concurrently; it continues sequentially to the next boundary.
+        Replay: 'explore_only' = [round, thread, k] runs that one variant
+        in-process at that round."""
+        from sim import world_b, watch as watch_mod
         core.apply_logging_config(self.trace)
+        world_b.install()
+        METER.install()
+        cts = self.trace['conns']
+        ex = self.trace['explore']
+        only = self.trace.get('explore_only')
+        helper = PristineRefs() if 'C06' in self.props else None
+        conns = []
+        lib.LOCK_YIELD[0] = lib.single_thread_yield
+        try:
+            try:
+                for ci, ct in enumerate(cts):
+                    conns.append(self.build_conn(ci, ct, want_ref=False))
+                if helper is not None:
+                    frames = [fi for c in conns for fi in c.frames
+                              if not fi.damaged and fi.kind != 'raw'
+                              and fi.data]
+                    refs = helper.ask([fi.data for fi in frames])
+                    helper = None
+                    for fi, pr in zip(frames, refs):
+                        fi.ref = pr
+            finally:
+                if helper is not None:
+                    helper.drop()
+            for c in conns:
+                self.ev('conn', c.idx, c.recv, len(c.frames), len(c.stream))
+            watch = watch_mod.Watch()
+            round_no = 0
+            explored = 0
+            spent = {}
+            while any(not c.done for c in conns):
+                round_no += 1
+                if round_no % 50 == 0:
+                    watch.scan()
+                    core.heartbeat()
+                if only is not None:
+                    if round_no == only[0]:
+                        self.ev('variant', only)
+                        info = self.run_variant(conns, watch, only[1],
+                                                only[2], ex['w'], only[4],
+                                                only[3])
+                        self.count(self.fired, 'explored_interleaving')
+                        continue
+                elif explored < ex['max_rounds']:
+                    hit = watch.near_caps(ex['caps'], ex['margin'], spent,
+                                          ex.get('per_cap', 4))
+                    if hit is not None:
+                        explored += 1
+                        self.explore_round(conns, watch, round_no, ex,
+                                           '%s@%d' % hit)
+                for c in conns:
+                    if not c.done:
+                        self.step_conn(c, 0)
+            watch.scan()
+            self.ev('watch', watch.summary())
+            if self.trace.get('tail') and 'C08' in self.props and \
+                    only is not None:
+                # (in a batch run only the explored children that left an
+                # unusual container state behind run the tail; the parent
+                # never ran concurrently - single-threaded retention is the
+                # soak population's business)
+                self.soak_tail(watch, self.trace['tail'])
+        except Violation:
+            pass
+        finally:
+            lib.LOCK_YIELD[0] = None
+        res = {
+            'digest': self.h.hexdigest(), 'violation': self.violation,
+            'fired': {k: v for k, v in self.fired.items() if v},
+            'probes': self.probes, 'oracles': self.oracle_evals,
+            'events': self.n_events, 'calls': self.n_calls,
+            'steps': self.n_steps, 'vtime': 0,
+            'nontrivial': bool(self.oracle_evals) and self.n_calls > 1,
+            'mem_calls': self.mem_calls, 'mem_peak_ratio': 0.0,
+            'max_step_ratio': self.max_step_ratio,
+            'extra': {'max_retained_bytes':
+                      getattr(self, 'retained_peak', 0)},
+            'log': self.log,
+        }
+        if getattr(self, 'trace_patch', None):
+            res['trace_patch'] = self.trace_patch
+        return res
+
+    def run_variant(self, conns, watch, t, k, w, names, rv=None):
+        """One interleaving of a window: every connection is a real thread
+        executing its next w operations; thread t starts and is parked at
+        its k-th container-touching line (k None: no parking)."""
+        from sim import sched, world_b
+        n = len(conns)
+        vtrace = {'first': t, 'exit_picks': [0],
+                  'park': {'thread': t, 'k': k, 'names': list(names),
+                           'rv': rv}}
+        self.baton = sched.Baton(n, vtrace, self.ev)
+        self.threaded = True
+
+        def body(tid):
+            c = conns[tid]
+            for _ in range(w):
+                if c.done:
+                    break
+                if not self.step_conn(c, 0):
+                    break
+
+        def safe_body(tid):
+            try:
+                body(tid)
+            except Violation:
+                self.baton.abort = True
+        METER.count = 0
+        METER.budget = 3000000
+        METER.tripped = False
+        METER.where = None
+        METER.last_loop = None
+        METER.active = True
+        world_b.CURRENT[0] = self
+        lib.LOCK_YIELD[0] = self.baton.lock_yield
+        try:
+            self.baton.run([safe_body] * n)
+        finally:
+            world_b.CURRENT[0] = None
+            lib.LOCK_YIELD[0] = lib.single_thread_yield
+            METER.active = False
+            self.threaded = False
+        self.n_steps += METER.count
+        baton, self.baton = self.baton, None
+        if getattr(self, 'harness_failure', None):
+            raise RuntimeError('harness: scheduler callback failed: ' +
+                               self.harness_failure)
+        for name, rep, tb in baton.errors:
+            if name == 'StepBudgetExceeded':
+                self.probe('run_aborted_by_step_budget')
+                if self.violation is None:
+                    self.oracle('C08.steps')
+                    try:
+                        self.fail('C08', 'steps', ['steps', METER.where],
+                                  'two decodes running concurrently did not '
+                                  'finish within %d steps; inside %s' % (
+                                      METER.budget, METER.where))
+                    except Violation:
+                        pass
+            elif name == 'Deadlock':
+                self.probe('library_lock_deadlock')
+                if self.violation is None:
+                    try:
+                        self.fail('C08', 'steps', ['deadlock'],
+                                  'a decode blocked for ever on a library '
+                                  'lock that nobody can release: ' + rep)
+                    except Violation:
+                        pass
+            else:
+                raise RuntimeError('harness: thread error %s\n%s' % (rep,
+                                                                     tb))
+        if self.violation is not None:
+            raise self.violation
+        return {'relevant': list(baton.relevant),
+                'parked': baton.park_done, 'met': baton.rv_state >= 2,
+                'digest': watch.state_digest()}
+
+    def explore_round(self, conns, watch, round_no, ex, hit):
+        import os
+        import pickle
+        n = len(conns)
+        names = watch.dynamic_names()
+        self.count(self.fired, 'explored_round')
+        self.ev('explore', round_no, hit)
+
+        def spawn(t, k, rv=None):
+            r1, w1 = os.pipe()
+            r2, w2 = os.pipe()
+            pid = os.fork()
+            if pid == 0:
+                code = 0
+                try:
+                    os.close(r1)
+                    os.close(w2)
+                    core.WAL_PATH[0] = None
+                    out = {'violation': None}
+                    try:
+                        out.update(self.run_variant(conns, watch, t, k,
+                                                    ex['w'], names, rv))
+                    except Violation as v:
+                        out['violation'] = v.to_json()
+                    os.write(w1, pickle.dumps(out) + b'\n.END.\n')
+                    if out['violation'] is None and os.read(r2, 1) == b'c':
+                        # unusual container state: play the run to its end
+                        fin = {'violation': None}
+                        try:
+                            while any(not c.done for c in conns):
+                                for c in conns:
+                                    if not c.done:
+                                        self.step_conn(c, 0)
+                            if self.trace.get('tail') and \
+                                    'C08' in self.props:
+                                self.soak_tail(watch, self.trace['tail'])
+                        except Violation as v:
+                            fin['violation'] = v.to_json()
+                        os.write(w1, pickle.dumps(fin) + b'\n.END.\n')
+                except BaseException:
+                    import traceback
+                    try:
+                        os.write(w1, pickle.dumps(
+                            {'harness': traceback.format_exc()[-1500:]}) +
+                            b'\n.END.\n')
+                    except OSError:
+                        pass
+                    code = 3
+                finally:
+                    os._exit(code)
+            os.close(w1)
+            os.close(r2)
+            return pid, r1, w2
+
+        def read_msg(fd):
+            buf = b''
+            while not buf.endswith(b'\n.END.\n'):
+                b = os.read(fd, 1 << 16)
+                if not b:
+                    return None
+                buf += b
+            return pickle.loads(buf[:-7])
+
+        def finish(pid, r1, w2, cmd):
+            try:
+                os.write(w2, cmd)
+            except OSError:
+                pass
+            msg = read_msg(r1) if cmd == b'c' else None
+            os.close(r1)
+            os.close(w2)
+            os.waitpid(pid, 0)
+            return msg
+
+        def found(vj, t, k, when, rv=None):
+            self.trace_patch = {'explore_only': [round_no, t, k, rv, names]}
+            self.ev('explore-violation', round_no, t, k, rv, when)
+            v = Violation(vj['property'], vj['oracle'], vj['class'],
+                          vj['detail'] + ' [interleaving: round %d, thread '
+                          '%d parked before its container-touching line %r'
+                          '%s]' % (round_no, t, k, '' if not rv else
+                                   ', the next thread brought to the same '
+                                   'source line (arrival %d), then both '
+                                   'executed it' % rv))
+            if v.prop in self.props and self.violation is None:
+                self.violation = v
+                raise v
+
+        seq_digests = set()
+        relevant = [0] * n
+        # sequential orders first: reference container states
+        for t in sorted({0, n - 1}):
+            pid, r1, w2 = spawn(t, None)
+            msg = read_msg(r1)
+            finish(pid, r1, w2, b'x')
+            if msg is None or 'harness' in msg:
+                raise RuntimeError('harness: exploration child failed: %r' %
+                                   (msg,))
+            if msg['violation'] is not None:
+                found(msg['violation'], t, None, 'window')
+                return
+            seq_digests.add(msg['digest'])
+            relevant = [max(a, b) for a, b in zip(relevant, msg['relevant'])]
+        variants = 0
+        suspicious = 0
+        seen_unusual = set()
+        self.continued = getattr(self, 'continued', 0)
+        if sum(1 for x in relevant if x) < 2:
+            # at most one thread touches a container in this window:
+            # nothing to interleave
+            self.probe('explore_round_without_interaction')
+            self.ev('explored', round_no, 0, 0)
+            return
+        for t in range(n):
+            top = min(relevant[t], ex['kmax'])
+            for k in range(1, top + 1):
+                for rv in (None, 1):
+                    variants += 1
+                    pid, r1, w2 = spawn(t, k, rv)
+                    msg = read_msg(r1)
+                    if msg is None or 'harness' in msg:
+                        finish(pid, r1, w2, b'x')
+                        raise RuntimeError('harness: exploration child '
+                                           'failed: %r' % (msg,))
+                    if msg['violation'] is not None:
+                        finish(pid, r1, w2, b'x')
+                        self.count(self.fired, 'explored_interleaving',
+                                   variants)
+                        found(msg['violation'], t, k, 'window', rv)
+                        return
+                    if msg['digest'] not in seq_digests and \
+                            msg['digest'] not in seen_unusual and \
+                            len(seen_unusual) < 3 and \
+                            self.continued < ex.get('max_continue', 10):
+                        # a container state no sequential order produces
+                        # (each distinct state once): play the run on
+                        seen_unusual.add(msg['digest'])
+                        self.continued += 1
+                        suspicious += 1
+                        fin = finish(pid, r1, w2, b'c')
+                        if fin is None or 'harness' in fin:
+                            raise RuntimeError('harness: exploration child '
+                                               'failed: %r' % (fin,))
+                        if fin['violation'] is not None:
+                            self.count(self.fired, 'explored_interleaving',
+                                       variants)
+                            found(fin['violation'], t, k, 'later', rv)
+                            return
+                    else:
+                        finish(pid, r1, w2, b'x')
+                    if rv and not msg.get('met'):
+                        break   # the threads never met at that line
+        self.count(self.fired, 'explored_interleaving', variants)
+        if suspicious:
+            self.probe('interleaving_left_unusual_container_state',
+                       suspicious)
+        self.ev('explored', round_no, variants, suspicious)
+        core.heartbeat()
+
+    # ------------------------------------------------------------- soaks
+    RETAIN_SUSPECT = 256 * 1024
+    RETAIN_HARD = 3 * 1024 * 1024
+    RETAIN_PER_BYTE = 64
+    SOAK_EXTEND = 16
+
+    def soak_loop(self, spec, n, measure, why, warm=0):
+        """Decode the first n inputs of the series (results dropped), sampling
+        the retained memory four times; while what is retained exceeds the
+        suspect level AND is still growing, extend the history (up to
+        SOAK_EXTEND * n inputs): a bounded cache saturates and the growth
+        stops, an unbounded one passes the hard limit.  Deterministic: the
+        extension depends on the library's state only."""
+        q = max(1, (n - warm) // 4)
+        samples = []
+        maxlen = 0
+        i = 0
+        total = warm + 4 * q      # samples fall on the end of every leg
+        while i < total:
+            if i == warm:
+                samples.append(measure(True))
+            data = soak_frame(spec, i)
+            if len(data) > maxlen:
+                maxlen = len(data)
+            if i % 500 == 0:
+                core.heartbeat()
+            self.call_unmarshal(data, why)
+            data = None
+            i += 1
+            if i > warm and (i - warm) % q == 0:
+                samples.append(measure(False))
+            if i >= total and total < self.SOAK_EXTEND * n:
+                grown = samples[-1] - samples[0]
+                per = grown / (len(samples) - 1)
+                last = samples[-1] - samples[-2]
+                if grown > self.RETAIN_SUSPECT and last * 4 > per and \
+                        grown <= self.RETAIN_HARD + \
+                        self.RETAIN_PER_BYTE * maxlen:
+                    total += 4 * q
+                    self.probe('soak_extended')
+        self.oracle('C08.retention')
+        grown = samples[-1] - samples[0]
+        per = grown / max(1, len(samples) - 1)
+        last = samples[-1] - samples[-2] if len(samples) > 1 else 0
+        limit = self.RETAIN_HARD + self.RETAIN_PER_BYTE * maxlen
+        self.retained_peak = max(getattr(self, 'retained_peak', 0), grown)
+        self.ev('retention', why, i, grown > limit)
+        if grown > limit and last * 4 > per:
+            self.fail('C08', 'retention', ['retention'],
+                      'after decoding a history of %d distinct inputs '
+                      '(largest %d bytes) and dropping every result, %d '
+                      'bytes more are held than at the start (limit %d) and '
+                      'the amount was still growing when the history ended '
+                      '(growth per quarter: %r)' % (
+                          i, maxlen, grown, limit,
+                          [samples[k + 1] - samples[k]
+                           for k in range(len(samples) - 1)][-8:]))
+        return i
+
+    def soak_tail(self, watch, n):
+        """After a threaded capacity run: a single-threaded history of
+        distinct frames; whatever the races left behind (a cache whose
+        bound no longer binds) shows as retained memory."""
+        self.threaded = False
+        lib.LOCK_YIELD[0] = lib.single_thread_yield
+        spec = {'n': n, 'weights': {'strings': 3, 'keys': 2, 'stamps': 1,
+                                    'bodies': 1},
+                'a': 2654435761, 'b': 97, 'chain': 1, 'chain_low': True}
+
+        def measure(first):
+            watch.scan()
+            return watch.retained()
+        try:
+            done = self.soak_loop(spec, n, measure, 'tail')
+        finally:
+            lib.LOCK_YIELD[0] = None
+        self.count(self.fired, 'soak_tail_frames', done)
+
+    def execute_soak(self):
+        import gc
+        spec = self.trace['soak']
+        n = spec['n']
+        METER.install()
+        lib.LOCK_YIELD[0] = lib.single_thread_yield
+
+        def measure(first):
+            gc.collect()
+            if first:
+                tracemalloc.start()
+            return tracemalloc.get_traced_memory()[0]
+        try:
+            done = self.soak_loop(spec, n, measure, 's',
+                                  warm=min(300, n // 10))
+            self.count(self.fired, 'soak_frames', done)
+        except Violation:
+            pass
+        finally:
+            lib.LOCK_YIELD[0] = None
+            if tracemalloc.is_tracing():
+                tracemalloc.stop()
+        return {
+            'digest': self.h.hexdigest(), 'violation': self.violation,
+            'fired': self.fired, 'probes': self.probes,
+            'oracles': self.oracle_evals, 'events': self.n_events,
+            'calls': self.n_calls, 'steps': self.n_steps, 'vtime': 0,
+            'nontrivial': bool(self.oracle_evals) and self.n_calls > 1,
+            'mem_calls': self.mem_calls, 'mem_peak_ratio': 0.0,
+            'max_step_ratio': self.max_step_ratio,
+            'extra': {'max_retained_bytes':
+                      getattr(self, 'retained_peak', 0)},
+            'log': self.log,
+        }
+
+    def execute(self):
+        core.apply_logging_config(self.trace)
+        if self.trace.get('population') == 'soak':
+            return self.execute_soak()
+        if self.trace.get('explore') is not None:
+            return self.execute_capacity()
         if self.threaded:
             return self.execute_threaded()
         METER.install()
+        lib.LOCK_YIELD[0] = lib.single_thread_yield
         helper = None
         if 'C06' in self.props and self.trace.get('population') in (
                 'frag', 'long'):
@@ -986,6 +1527,7 @@ class RunA:
         except Violation:
             pass
         finally:
+            lib.LOCK_YIELD[0] = None
             if helper is not None:
                 helper.drop()
         nontrivial = bool(self.oracle_evals) and any(
@@ -1006,6 +1548,113 @@ class RunA:
             'max_step_ratio': self.max_step_ratio,
             'log': self.log,
         }
+
+
+_SOAK_KINDS = ('flagchain', 'strings', 'keys', 'stamps', 'bodies',
+               'badutf8', 'badtag', 'deep')
+
+
+def _soak_kind(spec, i):
+    w = spec['weights']
+    tot = sum(w.get(k, 0) for k in _SOAK_KINDS)
+    x = (spec['a'] * (i + 1) + spec['b']) % 2147483647 % max(1, tot)
+    for k in _SOAK_KINDS:
+        x -= w.get(k, 0)
+        if x < 0:
+            return k
+    return 'strings'
+
+
+def _frame_bytes(ftype, ch, payload):
+    return bytes([ftype]) + ch.to_bytes(2, 'big') + \
+        len(payload).to_bytes(4, 'big') + payload + b'\xce'
+
+
+def _ss(s):
+    b = s.encode('utf-8')
+    return bytes([len(b)]) + b
+
+
+def soak_frame(spec, i):
+    """The i-th input of a soak history: a pure function of the explicit
+    spec and i (no randomness at execution time).  All frames are built by
+    the harness byte by byte, as a foreign peer would send them; every
+    cacheable part (channel, strings, keys, timestamps, flag words, sizes)
+    is distinct for distinct i."""
+    kind = _soak_kind(spec, i)
+    ch = (i * 7 + 1) % 65536
+    x = (spec['a'] * (i + 7) + spec['b']) % 2147483647
+    if kind == 'flagchain':
+        # content header with chained property-flag words (bit 0 of a word
+        # = "another word follows"); only the first word selects properties
+        k = 1 + x % max(1, spec.get('chain', 1))
+        # delivery_mode + priority (the top bit is avoided: the decoder
+        # reads flag words as signed shorts)
+        first = 0x1000 | 0x0800 | 1
+        words = [first]
+        y = x
+        for j in range(k):
+            y = (y * 1103515245 + 12345 + i) % 2147483648
+            wv = (y >> 8) & 0xffff
+            if spec.get('chain_low'):
+                wv &= 0x7fff
+            wv = (wv | 1) if j < k - 1 else (wv & ~1)
+            words.append(wv)
+        payload = (60).to_bytes(2, 'big') + b'\x00\x00' + \
+            (i & 0xffffffff).to_bytes(8, 'big') + \
+            b''.join(w_.to_bytes(2, 'big') for w_ in words) + \
+            bytes([1 + i % 2, i % 10])
+        return _frame_bytes(2, ch, payload)
+    if kind == 'strings':
+        # Basic.Deliver: consumer-tag, delivery-tag, redelivered, exchange,
+        # routing-key
+        payload = (60).to_bytes(2, 'big') + (60).to_bytes(2, 'big') + \
+            _ss('ctag-%d' % i) + (i + 1).to_bytes(8, 'big') + b'\x00' + \
+            _ss('ex-%d' % (x % 100003)) + _ss('rk.%d.%d' % (i, x % 977))
+        return _frame_bytes(1, ch, payload)
+    if kind in ('keys', 'badutf8', 'badtag', 'deep'):
+        # content header with a headers table of distinct keys
+        items = b''
+        for j in range(1 + x % 4):
+            key = 'k%d_%d' % (i, j)
+            if kind == 'deep' and j == 0:
+                inner = _ss('n%d' % i) + b'I' + (x % 2147483647).to_bytes(
+                    4, 'big')
+                for _ in range(1 + x % 6):
+                    inner = _ss('d%d' % (x % 9973)) + b'F' + \
+                        len(inner).to_bytes(4, 'big') + inner
+                items += _ss(key) + b'F' + len(inner).to_bytes(4, 'big') + \
+                    inner
+            elif j % 3 == 0:
+                items += _ss(key) + b'S' + (len(key) + 2).to_bytes(
+                    4, 'big') + b'v=' + key.encode()
+            elif j % 3 == 1:
+                items += _ss(key) + b'T' + (1600000000 + i * 13 + j
+                                            ).to_bytes(8, 'big')
+            else:
+                items += _ss(key) + b'D' + bytes([x % 9]) + \
+                    (i * 31 + j).to_bytes(4, 'big')
+        if kind == 'badutf8':
+            b_ = bytearray(items)
+            b_[1 + x % 3] = (0xff, 0xc0, 0x80, 0xfe)[i % 4]
+            items = bytes(b_)
+        elif kind == 'badtag':
+            items += _ss('z%d' % i) + bytes([(0x01, 0x7a, 0xff, 0x51)[i % 4]
+                                             ]) + b'\x00\x00'
+        payload = (60).to_bytes(2, 'big') + b'\x00\x00' + \
+            (i & 0xffffffff).to_bytes(8, 'big') + (0x2000).to_bytes(
+                2, 'big') + len(items).to_bytes(4, 'big') + items
+        return _frame_bytes(2, ch, payload)
+    if kind == 'stamps':
+        # content header: message_id + timestamp
+        payload = (60).to_bytes(2, 'big') + b'\x00\x00' + \
+            (i & 0xffffffff).to_bytes(8, 'big') + \
+            (0x0080 | 0x0040).to_bytes(2, 'big') + \
+            _ss('mid-%d-%d' % (i, x % 1009)) + \
+            (1500000000 + i * 17 + x % 11).to_bytes(8, 'big')
+        return _frame_bytes(2, ch, payload)
+    # bodies of distinct sizes
+    return _frame_bytes(3, ch, bytes([i % 251]) * (1 + (i * 13) % 1777))
 
 
 def execute(trace, props, keep_log=False):
